@@ -9,7 +9,7 @@ use serde_json::{json, Value};
 use std::collections::BTreeSet;
 
 pub fn base_cfg(role: Role, len: usize, blk: usize, ws: u16) -> XCfg {
-    XCfg { role, blk, ws, len, handshake: false, timeout_s: 5, repeat: 1, clean: true, alpha: 0, silence_after: None, error_at: None, ack_every_copy: false, snapshot_tail: false, noise: None }
+    XCfg { role, blk, ws, len, handshake: false, timeout_s: 5, repeat: 1, clean: true, alpha: 0, silence_after: None, error_at: None, ack_every_copy: false, snapshot_tail: false, noise: None, noise_resume: false, send_fail_at: None }
 }
 
 pub fn cell_spec(cfg: &XCfg, bound: u64, max_exec: u64, props: &[&str]) -> Value {
@@ -165,6 +165,19 @@ pub fn c01_cells(tier: Tier) -> Vec<Value> {
             cells.push(cell_spec(&base_cfg(Role::Sender, len, 65464, ws), 1, MAXE, &p));
         }
     }
+    // socket errors: the n-th datagram handed to the socket is refused — whatever is emitted before and after must still
+    // be the right slice under the right number
+    for ws in [1u16, 3] {
+        let len = 2 * ws as usize * 8 + 3;
+        for n in 0..(2 * ws as usize + 3) {
+            for partial in [false, true] {
+                let mut cfg = base_cfg(Role::Sender, len, 8, ws);
+                cfg.send_fail_at = Some(n);
+                cfg.alpha = if partial { 2 } else { 3 };
+                cells.push(cell_spec(&cfg, if partial { 1 } else { 0 }, MAXE, &p));
+            }
+        }
+    }
     // duplicate-packets mode: every copy must carry the right slice under the right number
     for ws in [1u16, 2, 3] {
         for len in [3usize, 2 * ws as usize * 8 + 3] {
@@ -221,6 +234,16 @@ pub fn c02_cells(tier: Tier) -> Vec<Value> {
         let lens: Vec<usize> = if w > 1000 { vec![5 * 8, 20 * 8 + 1] } else { vec![5 * 8, w * 8 - 1, w * 8, w * 8 + 1, (w + 1) * 8] };
         for len in lens {
             let mut cfg = base_cfg(Role::Receiver, len, 8, ws);
+            cfg.alpha = 2;
+            cells.push(cell_spec(&cfg, 1, MAXE, &p));
+        }
+    }
+    // socket errors on the n-th ACK
+    for ws in [1u16, 2] {
+        let len = 3 * ws as usize * 8 + 3;
+        for n in 0..5usize {
+            let mut cfg = base_cfg(Role::Receiver, len, 8, ws);
+            cfg.send_fail_at = Some(n);
             cfg.alpha = 2;
             cells.push(cell_spec(&cfg, 1, MAXE, &p));
         }
@@ -332,6 +355,30 @@ pub fn c08_cells(tier: Tier) -> Vec<Value> {
             cells.push(cell_spec(&cfg, if tier == Tier::Quick { 1 } else { 2 }, MAXE, &p));
         }
     }
+    // k = 1..9 duplicate (kind 0) or future (kind 1) ACKs in a row, then the conformant answers resume: no retransmission
+    // in between and the transfer completes (a duplicate ACK is never a reason to give up, however many arrive)
+    for ws in [1u16, 3, 8] {
+        let len = 2 * ws as usize * blk + 3;
+        for at in [1usize, 2] {
+            for kind in [0u8, 1] {
+                for count in 1..=9usize {
+                    let mut cfg = base_cfg(Role::Sender, len, blk, ws);
+                    cfg.alpha = 3;
+                    cfg.noise = Some((at, kind, count));
+                    cfg.noise_resume = true;
+                    cells.push(cell_spec(&cfg, 0, MAXE, &p));
+                }
+            }
+        }
+    }
+    // a burst of duplicate copies that outlasts the timeout, followed by a duplicate ACK (timer counts from the END of a transmission)
+    {
+        let mut cfg = base_cfg(Role::Sender, 64 * blk + 3, blk, 64);
+        cfg.repeat = 17;
+        cfg.timeout_s = 1;
+        cfg.alpha = 5;
+        cells.push(cell_spec(&cfg, 1, MAXE, &p));
+    }
     // boundary window sizes
     for ws in [65534u16, 65535] {
         // a short file (window never full) and one that fills the whole window
@@ -381,12 +428,29 @@ pub fn c16_cells(tier: Tier) -> Vec<Value> {
         cfg.alpha = 5;
         cells.push(cell_spec(&cfg, 1, MAXE, &p));
     }
-    // N = 254 on one 2-block transfer per role (each copy is followed by a real 1 ms pause in the subject)
+    // peers that answer every copy, for N at and beyond the retry budget
+    for n in [5u8, 6, 7, 12] {
+        for role in [Role::Sender, Role::Receiver] {
+            let mut cfg = base_cfg(role, 2 * blk + 3, blk, 1);
+            cfg.repeat = n + 1;
+            cfg.ack_every_copy = true;
+            cfg.alpha = 3;
+            cells.push(cell_spec(&cfg, 0, MAXE, &p));
+        }
+    }
+    // N = 254 on one 2-block transfer per role (each copy is followed by a real 1 ms pause in the subject), with a peer that
+    // answers once and with one that answers every copy
     for role in [Role::Sender, Role::Receiver] {
-        let mut cfg = base_cfg(role, blk + 3, blk, 1);
-        cfg.repeat = 255;
-        cfg.alpha = 3;
-        cells.push(cell_spec(&cfg, 0, MAXE, &p));
+        for every in [false, true] {
+            if every && role == Role::Receiver {
+                continue; // every duplicate DATA is re-acknowledged N+1 times: 254 x 255 real milliseconds
+            }
+            let mut cfg = base_cfg(role, blk + 3, blk, 1);
+            cfg.repeat = 255;
+            cfg.alpha = 3;
+            cfg.ack_every_copy = every;
+            cells.push(cell_spec(&cfg, 0, MAXE, &p));
+        }
     }
     cells
 }
